@@ -39,6 +39,7 @@ def run(prog, tier):
     check_gates(R, prog)
     check_tokens(R, prog)
     check_writer(R, prog)
+    check_write_through(R, prog, P, [("cnfgen.formula.cnfio", "CNFio", ("to_dimacs", "to_file"))])
     return R
 
 
@@ -299,3 +300,43 @@ def check_writer(R, prog):
         else:
             R.unknown("COMMENT-SHIELD", inst, w.key, why)
     R.floor("COMMENT-SHIELD", n, 3)
+
+
+WRITER_FUNCS = ("to_dimacs_file", "to_opb_file", "to_latex_string", "to_latex_document")
+
+
+def check_write_through(R, prog, prop, targets):
+    """WRITE-THROUGH: the facade methods (to_dimacs / to_opb / to_latex / to_file) render the formula as it is now: every path to a
+    normal exit passes a call of a writer function on `self`, and the method stores nothing on the object (no cached text that a
+    later change of the formula would leave stale)."""
+    n = 0
+    for mod, cls, names in targets:
+        ci = prog.cls(mod, cls)
+        for name in names:
+            fi = ci.methods.get(name)
+            if fi is None:
+                raise AnalysisError("%s.%s not found" % (cls, name))
+            n += 1
+            cfg = CFG(fi.node)
+            wnodes = []
+            for st in stmts_in(fi.node):
+                if isinstance(st, (ast.If, ast.For, ast.While, ast.Try, ast.With)):
+                    continue
+                for c in ast.walk(st):
+                    if isinstance(c, ast.Call) and isinstance(c.func, ast.Name) and c.func.id in WRITER_FUNCS and c.args and src(c.args[0]) == "self":
+                        wnodes.append(cfg.node_of(st))
+            wnodes = [w for w in wnodes if w is not None]
+            stores = [x for x in ast.walk(fi.node) if isinstance(x, ast.Attribute) and isinstance(x.ctx, ast.Store)
+                      and isinstance(x.value, ast.Name) and x.value.id == "self"]
+            stores += [c for c in ast.walk(fi.node) if isinstance(c, ast.Call) and isinstance(c.func, ast.Name) and c.func.id == "setattr"
+                       and c.args and src(c.args[0]) == "self"]
+            if not wnodes or cfg.reaches(cfg.entry, cfg.exit, avoid=wnodes):
+                R.bad(Finding(prop, "WRITE-THROUGH", fi, "%s.%s can return without rendering" % (cls, name),
+                              "some path through %s returns without calling a writer on the current state of `self` (a remembered text is "
+                              "returned): after the formula changes the text no longer states its variables / clauses" % name))
+            elif stores:
+                R.bad(Finding(prop, "WRITE-THROUGH", fi, "%s.%s stores state on the formula" % (cls, name),
+                              "`%s`: a rendering method must not keep state on the object" % src(stores[0])[:60], node=stores[0]))
+            else:
+                R.ok("WRITE-THROUGH", "%s.%s renders `self` on every path and keeps no state" % (cls, name), fi.key)
+    return n
